@@ -15,15 +15,21 @@ T = "solvers::simplex::tableau::Tableau"
 MU = "math::math_utils::"
 
 
+
+def S(R, rule, key, ok, where="", detail=""):
+    """a clause that recognises a spelling of the code: when the spelling is not there the clause cannot tell a defect from
+    a refactoring, so a miss is undecided; the behaviour behind these clauses is decided by SIMPLEX-EQUIV (c05rt.py)"""
+    return R.ob(rule, key, ok, where, detail, undecided=True)
+
 def loops(F, R):
     for name in ("solve_avoiding", "solve_step_by_step"):
         f = F.fn("%s::%s" % (T, name))
         if f is None:
-            R.ob("L", name + ":anchor", False, "", "not found")
+            S(R, "L", name + ":anchor", False, "", "not found")
             continue
         R.fn(f["path"])
         ws = [w for w in walk(f["body"]) if w.get("k") == "While"]
-        if not R.ob("L", name + ":loop", len(ws) == 1 and sexp(strip(ws[0]["cond"])) == "(iteration < limit)", F.loc(f), "the solve loop must be `while iteration < limit`"):
+        if not S(R, "L", name + ":loop", len(ws) == 1 and sexp(strip(ws[0]["cond"])) == "(iteration < limit)", F.loc(f), "the solve loop must be `while iteration < limit`"):
             continue
         w = ws[0]
         ms = [m for m in walk(w["body"]) if m.get("k") == "Match" and "step_inner" in sexp(m["scrut"])]
@@ -41,12 +47,12 @@ def loops(F, R):
             # every arm either increments the counter or leaves the loop
             ok = all(i or r for (i, r) in kinds.values()) and any(i for (i, r) in kinds.values())
             detail = "arms (increments counter, returns): %s" % kinds
-        R.ob("L", name + ":progress", ok, F.loc(f, w), "every arm of the loop body must increment the iteration counter or return: " + detail)
+        S(R, "L", name + ":progress", ok, F.loc(f, w), "every arm of the loop body must increment the iteration counter or return: " + detail)
         t = sexp(f["body"])
-        R.ob("L", name + ":limit-error", t.rstrip("}").rstrip().endswith("IterationLimitReached)"), F.loc(f), "leaving the loop by the limit must report IterationLimitReached")
+        S(R, "L", name + ":limit-error", t.rstrip("}").rstrip().endswith("IterationLimitReached)"), F.loc(f), "leaving the loop by the limit must report IterationLimitReached")
         # stall counter drives Bland's rule
         lets = {sexp(s["pat"]): sexp(s["init"]) for s in walk(w["body"]) if s.get("k") == "Let" and s.get("init") is not None}
-        R.ob("W-STATE", name + ":bland-trigger", lets.get("use_bland") == "(stalls > stall_limit)" and "use_bland)" in sexp(ms[0]["scrut"]) if ms else False, F.loc(f, w), "Bland's rule must be switched on by the stall counter and passed to the step: %s" % lets.get("use_bland"))
+        S(R, "W-STATE", name + ":bland-trigger", lets.get("use_bland") == "(stalls > stall_limit)" and "use_bland)" in sexp(ms[0]["scrut"]) if ms else False, F.loc(f, w), "Bland's rule must be switched on by the stall counter and passed to the step: %s" % lets.get("use_bland"))
         # W-STALL: the counter is reset only when the objective moved; otherwise Bland's rule would be switched off in the
         # middle of a degenerate sequence and the anti-cycling argument (Bland persists while the vertex stalls) is lost
         import flow, re as _re
@@ -54,12 +60,12 @@ def loops(F, R):
         stalled = lambda g: any((_re.fullmatch(r"(math_utils::)?float_eq\(self\.current_value, last_value\)", c) and b is True) or (_re.fullmatch(r"(math_utils::)?float_ne\(self\.current_value, last_value\)", c) and b is False) for c, b in g)
         ws_ = flow.guarded_writes(w["body"], "stalls")
         bad_w = [(op, rhs, [c for c, _ in g]) for op, rhs, g in ws_ if not ((op == "+=" and rhs == "1" and stalled(g)) or (op == "=" and rhs == "0" and moved(g)))]
-        R.ob("W-STATE", name + ":stall-writes", not bad_w and any(op == "+=" for op, _, _ in ws_) and any(op == "=" for op, _, _ in ws_), F.loc(f, w),
+        S(R, "W-STATE", name + ":stall-writes", not bad_w and any(op == "+=" for op, _, _ in ws_) and any(op == "=" for op, _, _ in ws_), F.loc(f, w),
              "inside the loop `stalls` is only incremented when the objective did not move and only reset when it did (a reset anywhere else switches Bland's rule off inside a degenerate sequence): %s" % (bad_w or "%d writes ok" % len(ws_)))
         lv = flow.guarded_writes(w["body"], "last_value")
         bad_l = [(op, rhs) for op, rhs, g in lv if not (op == "=" and rhs == "self.current_value" and moved(g))]
-        R.ob("W-STATE", name + ":last-value-writes", not bad_l and len(lv) >= 1, F.loc(f, w), "`last_value` follows the objective only when it moved: %s" % (bad_l or "ok"))
-        R.ob("W-STATE", name + ":stall-count", "stalls += 1" in sexp(w["body"]) and "stalls = 0" in sexp(w["body"]) and "float_eq(self.current_value, last_value)" in sexp(w["body"]), F.loc(f, w), "stalls count consecutive pivots that leave the objective unchanged")
+        S(R, "W-STATE", name + ":last-value-writes", not bad_l and len(lv) >= 1, F.loc(f, w), "`last_value` follows the objective only when it moved: %s" % (bad_l or "ok"))
+        S(R, "W-STATE", name + ":stall-count", "stalls += 1" in sexp(w["body"]) and "stalls = 0" in sexp(w["body"]) and "float_eq(self.current_value, last_value)" in sexp(w["body"]), F.loc(f, w), "stalls count consecutive pivots that leave the objective unchanged")
 
 
 def predicates(F, R):
@@ -98,7 +104,7 @@ def predicates(F, R):
 def state(F, R):
     f = F.fn(T + "::pivot")
     if f is None:
-        R.ob("W-STATE", "pivot:anchor", False, "", "pivot not found")
+        S(R, "W-STATE", "pivot:anchor", False, "", "pivot not found")
         return
     R.fn(f["path"])
     body = strip(f["body"])
@@ -127,7 +133,7 @@ def state(F, R):
                 writes.append((i, comp, x.get("op", "="), nm, sexp(x["rhs"])))
     comps = {w[1] for w in writes}
     R.table("pivot_writes", [list(w) for w in writes])
-    R.ob("W-STATE", "pivot:write-set", {"a", "b", "c", "current_value", "in_basis"} <= comps, F.loc(f), "pivot must update the matrix, the right-hand side, the costs, the objective value and the basis; it writes %s" % sorted(comps))
+    S(R, "W-STATE", "pivot:write-set", {"a", "b", "c", "current_value", "in_basis"} <= comps, F.loc(f), "pivot must update the matrix, the right-hand side, the costs, the objective value and the basis; it writes %s" % sorted(comps))
     # formulas
     def find(comp, pred):
         return [w for w in writes if w[1] == comp and pred(w)]
@@ -138,36 +144,36 @@ def state(F, R):
     norm_a = find("a", lambda w: w[2] == "/=" and w[4] == "pivot")
     norm_b = find("b", lambda w: w[2] == "/=" and w[4] == "pivot")
     basis = find("in_basis", lambda w: w[2] == "=" and w[3] == "in_basis[t]" and w[4] == "h")
-    R.ob("W-STATE", "pivot:formulas", all([elim_a, elim_b, elim_c, val, norm_a, norm_b, basis]), F.loc(f), "row elimination, cost update, value update, pivot-row normalisation and basis update must all be present: %s" % [bool(x) for x in (elim_a, elim_b, elim_c, val, norm_a, norm_b, basis)])
+    S(R, "W-STATE", "pivot:formulas", all([elim_a, elim_b, elim_c, val, norm_a, norm_b, basis]), F.loc(f), "row elimination, cost update, value update, pivot-row normalisation and basis update must all be present: %s" % [bool(x) for x in (elim_a, elim_b, elim_c, val, norm_a, norm_b, basis)])
     if all([elim_a, elim_b, elim_c, val, norm_a, norm_b]):
         order_ok = max(elim_a[0][0], elim_b[0][0], elim_c[0][0], val[0][0]) < min(norm_a[0][0], norm_b[0][0])
-        R.ob("W-STATE", "pivot:order", order_ok, F.loc(f), "the pivot row must be normalised only after every other row, the costs and the value were updated with the un-normalised pivot row (the factors already divide by the pivot)")
+        S(R, "W-STATE", "pivot:order", order_ok, F.loc(f), "the pivot row must be normalised only after every other row, the costs and the value were updated with the un-normalised pivot row (the factors already divide by the pivot)")
     factors = [sexp(s["init"]) for s in walk(f["body"]) if s.get("k") == "Let" and sexp(s.get("pat", {})) == "factor"]
-    R.ob("W-STATE", "pivot:factors", factors == ["(a[i][h] / pivot)", "(c[h] / pivot)"], F.loc(f), "elimination factors %s" % factors)
+    S(R, "W-STATE", "pivot:factors", factors == ["(a[i][h] / pivot)", "(c[h] / pivot)"], F.loc(f), "elimination factors %s" % factors)
     skip = [sexp(i["cond"]) for i in walk(f["body"]) if i.get("k") == "If"]
-    R.ob("W-STATE", "pivot:skip-pivot-row", "(i != t)" in skip, F.loc(f), "the elimination must skip the pivot row: conditions %s" % skip)
+    S(R, "W-STATE", "pivot:skip-pivot-row", "(i != t)" in skip, F.loc(f), "the elimination must skip the pivot row: conditions %s" % skip)
     # optimality / entering rule complementarity
     g, h = F.fn(T + "::is_optimal"), F.fn(T + "::find_h")
     if g is not None and h is not None:
         R.fn(g["path"])
         R.fn(h["path"])
         tg, th = sexp(g["body"]), sexp(h["body"])
-        R.ob("W-STATE", "optimal-vs-entering", "all(|c| math_utils::float_ge(*c, 0.0))" in tg and "math_utils::float_lt(**c, 0.0)" in th, F.loc(h), "optimal iff no reduced cost is < 0 (float_ge all) and entering candidates are exactly the costs that are float_lt 0: %s / %s" % (tg[:80], th[:160]))
-        R.ob("W-STATE", "entering:non-basic", "!self.in_basis.contains(i)" in th, F.loc(h), "only non-basic columns may enter")
+        S(R, "W-STATE", "optimal-vs-entering", "all(|c| math_utils::float_ge(*c, 0.0))" in tg and "math_utils::float_lt(**c, 0.0)" in th, F.loc(h), "optimal iff no reduced cost is < 0 (float_ge all) and entering candidates are exactly the costs that are float_lt 0: %s / %s" % (tg[:80], th[:160]))
+        S(R, "W-STATE", "entering:non-basic", "!self.in_basis.contains(i)" in th, F.loc(h), "only non-basic columns may enter")
         ifs = [i for i in walk(h["body"]) if i.get("k") == "If" and sexp(strip(i["cond"])) == "use_bland"]
         okb = bool(ifs) and sexp(strip(ifs[0]["then"])).endswith(".min()") and "map(|(i, _)| i)" in sexp(ifs[0]["then"]) and "min_by" in sexp(ifs[0]["else"])
-        R.ob("W-STATE", "entering:bland-smallest-index", okb, F.loc(h), "under Bland's rule the smallest eligible index enters; otherwise the most negative cost")
+        S(R, "W-STATE", "entering:bland-smallest-index", okb, F.loc(h), "under Bland's rule the smallest eligible index enters; otherwise the most negative cost")
     k = F.fn(T + "::find_t")
     if k is not None:
         R.fn(k["path"])
         t = sexp(k["body"])
-        R.ob("W-STATE", "ratio-test:positive-entries", "filter(|(_, a)| math_utils::float_gt(a[h], 0.0))" in t and "(self.b[i] / a[h])" in t, F.loc(k), "the ratio test runs over rows with a positive entry in the entering column and uses b[i] / a[i][h]")
-        R.ob("W-STATE", "ratio-test:tie-break", "float_eq(ratio, min.1)" in t and "(basis[i] < basis[min.0])" in t and "float_lt(ratio, min.1)" in t, F.loc(k), "ties are broken by the smallest basic variable index, strict improvements replace the minimum")
+        S(R, "W-STATE", "ratio-test:positive-entries", "filter(|(_, a)| math_utils::float_gt(a[h], 0.0))" in t and "(self.b[i] / a[h])" in t, F.loc(k), "the ratio test runs over rows with a positive entry in the entering column and uses b[i] / a[i][h]")
+        S(R, "W-STATE", "ratio-test:tie-break", "float_eq(ratio, min.1)" in t and "(basis[i] < basis[min.0])" in t and "float_lt(ratio, min.1)" in t, F.loc(k), "ties are broken by the smallest basic variable index, strict improvements replace the minimum")
     s = F.fn(T + "::step_inner")
     if s is not None:
         R.fn(s["path"])
         t = sexp(s["body"])
-        R.ob("W-STATE", "step:optimal-first", t.startswith("{if self.is_optimal() {return Result::Ok(simplex_enums::StepAction::Finished)}") or "if self.is_optimal()" in t.split("match")[0], F.loc(s), "a step first tests optimality")
+        S(R, "W-STATE", "step:optimal-first", t.startswith("{if self.is_optimal() {return Result::Ok(simplex_enums::StepAction::Finished)}") or "if self.is_optimal()" in t.split("match")[0], F.loc(s), "a step first tests optimality")
 
 
 def check(F, R):
@@ -189,7 +195,7 @@ def canonical_start(F, R):
     SLM = "transformers::standard_linear_model::StandardLinearModel::"
     f = F.fn(SLM + "into_tableau")
     if f is None:
-        R.ob("T-CANON", "into_tableau:anchor", False, "", "not found")
+        S(R, "T-CANON", "into_tableau:anchor", False, "", "not found")
     else:
         R.fn(f["path"])
         loops = [l for l in walk(f["body"]) if l.get("k") == "For" and any(x.get("k") == "Call" and norm(x.get("callee") or "").endswith("divide_matrix_row_by") for x in walk(l["body"]))]
@@ -210,10 +216,10 @@ def canonical_start(F, R):
                     pos.setdefault("costs", i)
             ok = {"row", "rhs", "value", "costs"} <= set(pos) and pos["row"] < pos["costs"] and pos["rhs"] < pos["value"]
             detail = "statement order in the loop body: %s" % sorted(pos.items(), key=lambda kv: kv[1])
-        R.ob("T-CANON", "direct-basis:normalise-before-use", ok, F.loc(f), "the basic row and its right-hand side must be divided by the basic coefficient before the costs are reduced with that row and before b[row] enters the objective constant: " + detail)
+        S(R, "T-CANON", "direct-basis:normalise-before-use", ok, F.loc(f), "the basic row and its right-hand side must be divided by the basic coefficient before the costs are reduced with that row and before b[row] enters the objective constant: " + detail)
     g = F.fn(SLM + "into_tableau_two_phase")
     if g is None:
-        R.ob("T-CANON", "two-phase:anchor", False, "", "not found")
+        S(R, "T-CANON", "two-phase:anchor", False, "", "not found")
         return
     R.fn(g["path"])
     # drive-out pivot search
@@ -228,7 +234,7 @@ def canonical_start(F, R):
             rng = sexp(strip(x["recv"]))
             ok = nonzero and "number_of_variables" in rng and rng.startswith("std::ops::Range{start: 0") or (nonzero and "Range{start: 0, end: number_of_variables}" in rng)
             detail = "search `%s.find(|j| %s)`" % (rng, t)
-    R.ob("T-CANON", "drive-out:non-zero-pivot", ok, F.loc(g), "an artificial basic at level 0 must be pivoted out on any structural column with a NON-ZERO entry (the right-hand side is 0, so the sign is irrelevant); only a row without structural support is redundant: " + detail)
+    S(R, "T-CANON", "drive-out:non-zero-pivot", ok, F.loc(g), "an artificial basic at level 0 must be pivoted out on any structural column with a NON-ZERO entry (the right-hand side is 0, so the sign is irrelevant); only a row without structural support is redundant: " + detail)
     # the None arm is the only producer of rows_to_drop
     pushes = [x for x in walk(g["body"]) if x.get("k") == "MCall" and x["name"] == "push" and sexp(strip(x["recv"])) == "rows_to_drop"]
     in_none = False
@@ -237,15 +243,15 @@ def canonical_start(F, R):
             for arm in m["arms"]:
                 if sexp(arm["pat"]).endswith("None") and len(pushes) == 1 and any(y is pushes[0] for y in walk(arm["body"])):
                     in_none = True
-    R.ob("T-CANON", "drive-out:drop-only-unsupported-rows", in_none, F.loc(g), "rows are dropped only in the `None` arm of the pivot-column search (%d push site(s))" % len(pushes))
+    S(R, "T-CANON", "drive-out:drop-only-unsupported-rows", in_none, F.loc(g), "rows are dropped only in the `None` arm of the pivot-column search (%d push site(s))" % len(pushes))
     # skip rows whose basic variable is structural
     conds = [sexp(strip(i["cond"])) for i in walk(g["body"]) if i.get("k") == "If"]
-    R.ob("T-CANON", "drive-out:only-artificial-rows", "(basis[row] < number_of_variables)" in conds, F.loc(g), "the drive-out only touches rows whose basic variable is artificial: conditions %s" % conds[:4])
+    S(R, "T-CANON", "drive-out:only-artificial-rows", "(basis[row] < number_of_variables)" in conds, F.loc(g), "the drive-out only touches rows whose basic variable is artificial: conditions %s" % conds[:4])
     # phase-1 verdict
-    R.ob("T-CANON", "phase1:infeasible-iff-nonzero", any("float_ne(tableau.current_value(), 0.0)" in c for c in conds), F.loc(g), "phase 1 declares infeasibility iff its optimum differs from 0")
+    S(R, "T-CANON", "phase1:infeasible-iff-nonzero", any("float_ne(tableau.current_value(), 0.0)" in c for c in conds), F.loc(g), "phase 1 declares infeasibility iff its optimum differs from 0")
     # artificial columns: unit entry at i + number_of_variables, cost 1, basis entry, value -= b[i]
     t = sexp(g["body"])
-    R.ob("T-CANON", "phase1:artificial-columns", "constraint[(i + number_of_variables)] = 1.0" in t and "c[(number_of_variables + i)] = 1.0" in t and "basis[i] = (number_of_variables + i)" in t and "value -= b[i]" in t and "c[j] -= *coefficient" in t.replace("c[j] -= coefficient", "c[j] -= *coefficient"), F.loc(g), "artificial i gets a unit entry in row i, cost 1 and is basic in row i; the phase-1 costs and value are reduced by every row")
+    S(R, "T-CANON", "phase1:artificial-columns", "constraint[(i + number_of_variables)] = 1.0" in t and "c[(number_of_variables + i)] = 1.0" in t and "basis[i] = (number_of_variables + i)" in t and "value -= b[i]" in t and "c[j] -= *coefficient" in t.replace("c[j] -= coefficient", "c[j] -= *coefficient"), F.loc(g), "artificial i gets a unit entry in row i, cost 1 and is basic in row i; the phase-1 costs and value are reduced by every row")
 
 
 def index_spaces(F, R):
@@ -295,7 +301,7 @@ def index_spaces(F, R):
                     if base.get("k") == "Path" and base.get("name") not in g:
                         wrong.append("%s[%s]" % (base.get("name"), counter))
             R.fn(f["path"])
-            R.ob("T-CANON", "%s:index-space:%s" % (f["path"].rsplit("::", 1)[-1], m.group(1)), not wrong, F.loc(f, lp), "the counter of the loop over `%s` (rows numbered as in %s) indexes %s" % (m.group(1), sorted(g), wrong or "only vectors of that group"))
+            S(R, "T-CANON", "%s:index-space:%s" % (f["path"].rsplit("::", 1)[-1], m.group(1)), not wrong, F.loc(f, lp), "the counter of the loop over `%s` (rows numbered as in %s) indexes %s" % (m.group(1), sorted(g), wrong or "only vectors of that group"))
         # the tableau is assembled from one group
         for c in walk(f["body"]):
             if c.get("k") == "Call" and norm(c.get("callee") or "").endswith("Tableau::new") and len(c["args"]) >= 4:
@@ -303,5 +309,5 @@ def index_spaces(F, R):
                 gs = [next((i for i, gr in enumerate(groups) if nm in gr), None) for nm in names]
                 if any(x is not None for x in gs):
                     n += 1
-                    R.ob("T-CANON", "%s:tableau-from-one-group" % f["path"].rsplit("::", 1)[-1], len(set(gs)) == 1 and None not in gs, F.loc(f, c), "Tableau::new takes the matrix, right-hand side and basis %s, which must come from one row numbering %s" % (names, [sorted(g) for g in groups]))
-    R.ob("T-CANON", "index-space:sites", n >= 2, "", "expected at least 2 index-space obligations in the canonical start, found %d" % n)
+                    S(R, "T-CANON", "%s:tableau-from-one-group" % f["path"].rsplit("::", 1)[-1], len(set(gs)) == 1 and None not in gs, F.loc(f, c), "Tableau::new takes the matrix, right-hand side and basis %s, which must come from one row numbering %s" % (names, [sorted(g) for g in groups]))
+    S(R, "T-CANON", "index-space:sites", n >= 2, "", "expected at least 2 index-space obligations in the canonical start, found %d" % n)
